@@ -262,7 +262,7 @@ def run_one(ctx, scenario):
 
 @st.composite
 def scenarios(draw, dedicated=None):
-    n = draw(st.integers(1, 8))
+    n = draw(st.sampled_from([0, 1, 1, 2, 2, 3, 3, 4, 5, 6, 7, 8]))     # also a lookup that found nothing
     ids = ['rec%d' % i for i in range(n)]
     ded = draw(st.booleans()) if dedicated is None else dedicated
     if ded:
@@ -280,6 +280,8 @@ def scenarios(draw, dedicated=None):
 
 
 FIXED = [
+    {'ids': [], 'script': {}, 'dedicated': True, 'recycle': 2, 'timeout': 0.3, 'keep': True, 'consume': 'full'},
+    {'ids': [], 'script': {}, 'dedicated': False, 'recycle': 2, 'timeout': 0.3, 'keep': False, 'consume': 'full'},
     {'ids': ['a', 'b', 'c', 'd'], 'script': {'a': 'equal', 'b': 'killed_in_poll', 'c': 'equal', 'd': 'different'},
      'dedicated': True, 'recycle': 2, 'timeout': 0.3, 'keep': True, 'consume': 'full', 'hard_cap_s': 30},
     {'ids': ['r0', 'r1', 'r2', 'r3'], 'script': {'r0': 'equal', 'r1': 'late', 'r2': 'equal', 'r3': 'different'},
